@@ -22,7 +22,7 @@ inductive Err where
   | DuplicateTwoHopPool | IntermediateTokenAmountMismatch | SqrtPriceOutOfBoundsLimit
   | UnsupportedTokenMint | OperationNotAllowedOnLockedPosition | PositionAlreadyLocked
   | TokenMinSubceededThreshold | InsufficientFunds | NoSuchPosition | PositionExists | NoArrays
-  | InvalidTokenMintOrder | Panic | Other
+  | InvalidTokenMintOrder | AdaptiveFeeConstantsUnchanged | Panic | Other
   deriving DecidableEq, Repr, Inhabited
 
 abbrev R := Except Err
